@@ -1061,3 +1061,70 @@ def malformed_stream(ctx, n_random, n_trunc_stride, n_mut, n_sweep, n_protected)
     cases.append((None, False, rfc_protected(with_iv(auth[1], spec, rng), spec), 'protected-without-crypto'))
     cases.append((spec, True, rfc_protected(with_iv(auth[1], spec, rng), spec), 'protected-header-only'))
     return cases
+
+
+# =============================================================================================
+# 6. the real parser under sys.settrace: loop iterations and executed lines
+# =============================================================================================
+
+LOOP_FUNCS = ('Transform.parse', 'Proposal.parse', 'PayloadSA.parse', 'PayloadTS.parse', 'PayloadDELETE.parse',
+              'Message._parse_payloads')
+_loop_lines = None
+
+
+class BudgetExceeded(Exception):
+    pass
+
+
+def loop_lines():
+    """Line numbers of the first statement of every loop body of the parser (message.py)."""
+    global _loop_lines
+    if _loop_lines is None:
+        src = pyast.Src(os.path.join(core.REPO, 'message.py'))
+        lines = set()
+        for name in LOOP_FUNCS:
+            fn = src.func(name)
+            loops = [n for n in ast.walk(fn) if isinstance(n, (ast.While, ast.For))]
+            if len(loops) != 1:
+                raise TranslateError(f'message.py: {name} is expected to contain exactly one loop')
+            lines.add(loops[0].body[0].lineno)
+        _loop_lines = lines
+    return _loop_lines
+
+
+def traced_decode(spec, header_only, data, budget=2_000_000, crypto=None):
+    """Run the real Message.parse under a line tracer: (outcome, loop iterations, executed lines of message.py).
+    outcome as impl_decode, or ['BUDGET'] when more than `budget` lines were executed (non-termination)."""
+    import sys
+    import message as M
+    target = M.__file__
+    loops = loop_lines()
+    counts = [0, 0]
+
+    def local(frame, event, arg):
+        if event == 'line':
+            counts[1] += 1
+            if frame.f_lineno in loops:
+                counts[0] += 1
+            if counts[1] > budget:
+                raise BudgetExceeded()
+        return local
+
+    def tracer(frame, event, arg):
+        if frame.f_code.co_filename == target:
+            return local
+        return None
+    cr = crypto if crypto is not None else mk_crypto(spec)
+    old = sys.gettrace()
+    sys.settrace(tracer)
+    try:
+        try:
+            m = M.Message.parse(bytes(data), header_only=header_only, crypto=cr)
+            out = ['OK', canon_msg(m)]
+        except BudgetExceeded:
+            out = ['BUDGET']
+        except Exception as ex:     # noqa
+            out = ['EXC', exc_name(ex)]
+    finally:
+        sys.settrace(old)
+    return out, counts[0], counts[1]
